@@ -856,7 +856,7 @@ class Synth:
             if isinstance(a.type, T.Size):
                 kw[str(a.name)] = self.rng.choice([1, 2, 3, 4, 6, 8])
             elif isinstance(a.type, T.Index):
-                kw[str(a.name)] = self.rng.choice([0, 1, 2, 3])
+                kw[str(a.name)] = self.rng.choice([0, 0, 1, 2, 3])
             else:
                 kw[str(a.name)] = self.rng.random() < 0.5
         return [], kw
